@@ -352,6 +352,8 @@ def grease_classification(ctx, report, rule):
         report.error('%s: TlsInvalidTypeBase.__attrs_post_init__ vanished' % rule)
         return
     report.touch(f)
+    if grease_tabulation(ctx, report, rule, base, f):
+        return
     sites = 0
     # the decision may sit in a helper of the class (classification moved out of __attrs_post_init__, memoised ...): every
     # method of the class that produces the GREASE verdict is a decision site
@@ -394,6 +396,87 @@ def grease_classification(ctx, report, rule):
                                    len(wrong), 256 ** width, hex(wrong[0][0]), 'taken for GREASE' if wrong[0][1] else 'not recognised as GREASE'))
     if not sites:
         report.add(rule, f.construct + '@grease-decision', 'no path classifies a code as GREASE')
+
+
+def grease_tabulation(ctx, report, rule, base, f):
+    """__attrs_post_init__ of the code point wrappers evaluated (sa.miniexec, helpers through the MRO) for integer codes of
+    both widths - quick: every one byte code, and every two byte code near a reserved value plus a stride; thorough: all
+    65536 - with the GREASE table modelled by its own member codes (``from_code`` raises InvalidValue outside them): the
+    wrapper must be GREASE exactly for the RFC 8701 values and keep the code.  True when the function stayed inside the
+    evaluable subset; the reading of the paths of the function is the fallback."""
+    from ..miniexec import Evaluator, Native, NativeError, Obj, Raised, Unsupported, class_call_hook
+    model = ctx.model
+
+    class InvalidValue(NativeError):
+        pass
+    GREASE, UNKNOWN = Obj(name='GREASE'), Obj(name='UNKNOWN')
+
+    def names(nm):
+        if nm == 'TlsInvalidType.GREASE':
+            return GREASE
+        if nm == 'TlsInvalidType.UNKNOWN':
+            return UNKNOWN
+        raise Unsupported('free name ' + nm)
+    try:
+        for sub_name, table_name, want, width in (('TlsInvalidTypeOneByte', 'TlsGreaseOneByte', RFC8701_ONE, 1), ('TlsInvalidTypeTwoByte', 'TlsGreaseTwoByte', RFC8701_TWO, 2)):
+            sub, table = model.try_cls(sub_name), model.try_cls(table_name)
+            if sub is None or table is None or table.enum_members is None:
+                return False
+            codes_in_table = {v.get('code') for v in table.enum_members.values()}
+
+            class Table(Native):
+                def from_code(self, code, codes=codes_in_table):
+                    if code not in codes:
+                        raise InvalidValue(code)
+                    return Obj(value=Obj(code=code))
+
+            class Me(Native):
+                def __init__(self, code):
+                    self.code, self.value = code, None
+
+                def get_grease_enum(self):
+                    return Table()
+
+                def get_param_class(self):
+                    return lambda code, value_type: Obj(code=code, value_type=value_type)
+
+            def extra(n, ev):
+                d = ast.unparse(n.func)
+                if d == 'isinstance' and len(n.args) == 2:
+                    v = ev.ev(n.args[0])
+                    if isinstance(v, int):
+                        return False        # an integer code is neither a member of the GREASE enum nor of any coded enum
+                    raise Unsupported('isinstance on a model value')
+                return NotImplemented
+            hook = class_call_hook(sub, extra, model)
+            nh = hook.name_hook_for(sub.module, names)
+            if width == 1 or ctx.thorough:
+                domain = range(256 ** width)
+            else:
+                near = set()
+                for w in want:
+                    near |= {w - 1, w, w + 1, w ^ 0x0100, w ^ 0x0001, w ^ 0x1010}
+                near |= {c for c in range(0, 65536) if (c & 0x0f0f) == 0x0a0a} | set(range(0, 65536, 257)) | {0, 1, 0xff, 0x100, 0xffff}
+                domain = sorted(c for c in near if 0 <= c < 65536)
+            wrong = []
+            for code in domain:
+                report.count(rule)
+                me = Me(code)
+                Evaluator({'self': me}, hook, nh).function(f.node)
+                got = getattr(me.value, 'value_type', None)
+                kept = getattr(me.value, 'code', None) == code and me.code == code
+                if (got is GREASE) != (code in want) or got not in (GREASE, UNKNOWN) or not kept:
+                    wrong.append((code, got, kept))
+            if wrong:
+                code, got, kept = wrong[0]
+                report.add(rule, '%s@grease-decision' % sub.construct,
+                           '%d of the %d codes evaluated are classified differently from RFC 8701, e.g. %s is %s%s' % (
+                               len(wrong), len(domain), hex(code), 'taken for GREASE' if got is GREASE else ('not recognised as GREASE' if got is UNKNOWN else 'given no kind'),
+                               '' if kept else ' (and the code is not kept)'))
+    except (Unsupported, Raised) as e:
+        report.sample({'rule': rule, 'tabulation': 'not applicable (%s): the decision is read off the paths of the function' % str(e)[:80]})
+        return False
+    return True
 
 
 def tabulate_decision(cls, test, width, want, Evaluator, Unsupported, model=None):
